@@ -286,3 +286,51 @@ func Mixes(full bool) []Mix {
 	}
 	return out
 }
+
+// Observation is what the real analyzers said about every site of a spec, keyed by the site's
+// identity (block index / tag / wrapper) so that it is comparable across layouts and spellings.
+type Observation struct {
+	BySite  map[string]string // site identity -> sorted codes joined by ","
+	NonSite []string          // diagnostics of the family's analyzer on lines that are not sites
+	Crash   string
+	Text    string
+}
+
+func siteID(si *SiteInst) string { return fmt.Sprintf("%d/%s/%s", si.Block, si.Site.Tag, si.Wrap) }
+
+// Observe renders and analyses s and returns the per-site verdicts of fam's analyzer.
+func Observe(fam *Family, s *Spec) *Observation {
+	rd := Render(s)
+	res, err := prog.Run(rd.Prog, prog.Opts{})
+	if err != nil {
+		common.Fatalf("generated program does not compile (%v): %v\n%s", specJSON(s), err, rd.Prog.Text())
+	}
+	o := &Observation{BySite: map[string]string{}, Text: rd.Prog.Text()}
+	if res.Panic != "" || len(res.Errs) > 0 {
+		o.Crash = res.Panic + strings.Join(res.Errs, "; ")
+		return o
+	}
+	obs := map[string][]string{}
+	for _, d := range res.Diags {
+		if d.Analyzer != fam.Analyzer {
+			continue
+		}
+		k := fmt.Sprintf("%s:%d", d.File, d.Line)
+		obs[k] = append(obs[k], d.Code)
+	}
+	for i := range rd.Sites {
+		si := &rd.Sites[i]
+		k := fmt.Sprintf("%s:%d", si.File, si.Line)
+		got := obs[k]
+		delete(obs, k)
+		sort.Strings(got)
+		o.BySite[siteID(si)] = strings.Join(got, ",")
+	}
+	for k, codes := range obs {
+		o.NonSite = append(o.NonSite, k+"="+strings.Join(codes, ","))
+	}
+	sort.Strings(o.NonSite)
+	return o
+}
+
+func SpecJSON(s *Spec) map[string]any { return specJSON(s) }
